@@ -87,4 +87,32 @@ example : (evalM [.bool false, .null] (.and (.col 0) (.col 1))).toOption = some 
 example : HasTy [.int, .bool] (.and (.lt (.col 0) (.lit (.dbl (3/2)))) (.isNull (.col 1))) .bool :=
   .and _ _ (.cmpNum Expr.lt _ _ .int .dbl (by simp) (by simp) (by simp) (.col 0 .int rfl) (.litDbl _)) (.isNull _ .bool (.col 1 .bool rfl))
 
+
+-- OBLIGATION: PysparklingVerif.C12.partition_independent
+/-- "The outcome does not depend on how the underlying data is partitioned": the row-wise operations (select,
+withColumn, filter, drop; rename / toDF do not touch rows) applied partition by partition and then collected give
+what they give on the collected rows — for every partitioning, empty partitions included, errors included — and
+union is the concatenation of the partition lists. (sort, limit, distinct and dropDuplicates are functions of the
+collected row list in the model by construction; the campaign runs them under 1..4 partitions.) -/
+theorem partition_independent (ps qs : List (List Row)) (es : List Expr) (cond e : Expr) (names dropped : List String)
+    (name : String) :
+    ((ps.mapM (selectM es)).toOption.map List.flatten) = (selectM es ps.flatten).toOption ∧
+    ((ps.mapM (filterM cond)).toOption.map List.flatten) = (filterM cond ps.flatten).toOption ∧
+    ((ps.map fun p => (dropCols names dropped p).2).flatten) = (dropCols names dropped ps.flatten).2 ∧
+    (∀ p ∈ ps, (dropCols names dropped p).1 = (dropCols names dropped ps.flatten).1) ∧
+    ((ps.mapM (fun p => (withColumnM names name e p).map (·.2))).toOption.map List.flatten)
+      = ((withColumnM names name e ps.flatten).map (·.2)).toOption ∧
+    unionM ps.flatten qs.flatten = (ps ++ qs).flatten := by
+  refine ⟨?_, ?_, ?_, fun _ _ => rfl, ?_, ?_⟩
+  · rw [← toOption_map]
+    exact congrArg _ (mapM_parts_flatten (fun r => es.mapM (evalM r)) ps)
+  · rw [← toOption_map]
+    exact congrArg _ (filterMapM_parts_flatten _ ps)
+  · simp [dropCols, List.map_flatten]
+  · rw [← toOption_map]
+    simp only [withColumnM_rows_eq_mapM]
+    exact congrArg _ (mapM_parts_flatten _ ps)
+  · simp [unionM]
+
+
 end PysparklingVerif.C12
